@@ -454,3 +454,9 @@ package obfs4
 //@   ensures (err == nil) == (c != nil)
 //@   ensures [C02:connection_only_after_authenticated_handshake] err == nil ==> !c.isServer && c.encoder != nil && c.decoder != nil && encInv(c.encoder) && decInv(c.decoder) && c.Conn == conn && fresh(c)
 //@   ensures [C10:handshake_timeout_disarmed] err == nil ==> conn.deadline == 0 && conn.rdeadline == 0
+
+// Reader and writer goroutines of one connection: their footprints on the connection object are disjoint
+// (field level), apart from pointers that are set by the constructor and never reassigned.  The objects
+// behind those pointers synchronise themselves: net.Conn is safe for one reader plus one writer, and
+// WeightedDist takes its own mutex in Sample and Reset.
+//@ struct [reader_writer_footprints_disjoint] serves C01 C05 C09 :: disjoint_fields obfs4Conn readers=Read,readPackets,decodePackets writers=Write,padBurst,makePacket shared=Conn,lenDist,iatDist,isServer,iatMode
